@@ -107,6 +107,13 @@ def gen_config(rng, opts=None):
             ex['description'] = 'executor %d' % e
         if o['env'] and rng.random() < 0.5:
             ex['env'] = {'LIB': '/opt/lib%d' % e}
+        if rng.random() < 0.3:   # run details at executor level, as numbers, quoted numbers and with the '!' mark
+            ex['invocations'] = rng.choice([rng.randint(1, o['max_inv']), '%d!' % rng.randint(1, o['max_inv']),
+                                            '%d' % rng.randint(1, o['max_inv'])])
+        if rng.random() < 0.15:
+            ex['warmup'] = rng.choice([1, '1!', '2'])
+        if rng.random() < 0.15:
+            ex['iterations'] = rng.choice([2, '3!', '2'])
         if o['profile']:
             ex['profiler'] = {'perf': {}}
         executors['E%d' % e] = ex
@@ -126,12 +133,13 @@ def gen_config(rng, opts=None):
         su = {'gauge_adapter': 'RebenchLog',
               'command': '%(benchmark)s c%(cores)s i%(input)s v%(variable)s t%(tag)s w%(warmup)s n%(invocation)s',
               'benchmarks': benches}
+        # variable values include the falsy ones: 0, 0.0, False (a run with input size 0 is a run like any other)
         if rng.random() < 0.5:
-            su['input_sizes'] = rng.choice([[1], [1, 2], ['s', 'l']])
+            su['input_sizes'] = rng.choice([[1], [1, 2], ['s', 'l'], [0, 10], [0], [0.0, 2.5]])
         if rng.random() < 0.3:
-            su['cores'] = rng.choice([[1], [1, 4], [2]])
+            su['cores'] = rng.choice([[1], [1, 4], [2], [0], [0, 2]])
         if rng.random() < 0.3:
-            su['variable_values'] = rng.choice([['a'], ['a', 'b']])
+            su['variable_values'] = rng.choice([['a'], ['a', 'b'], [0, 1], [False, 'x'], [0]])
         if rng.random() < 0.2:
             su['tags'] = rng.choice([['t1'], ['t1', 't2']])
         if rng.random() < 0.6:
@@ -166,8 +174,9 @@ def gen_config(rng, opts=None):
             if 'data_file' in ex:   # one file cannot serve a profile and a benchmark experiment
                 ex['data_file'] += '.prof'
         experiments['X%d' % x] = ex
+    runs_inv = rng.randint(1, o['max_inv'])
     cfg = {'default_experiment': 'all', 'default_data_file': 'default.data',
-           'runs': {'invocations': rng.randint(1, o['max_inv'])},
+           'runs': {'invocations': rng.choice([runs_inv, runs_inv, '%d!' % runs_inv, '%d' % runs_inv])},
            'benchmark_suites': suites, 'executors': executors, 'experiments': experiments}
     if rng.random() < 0.3:
         cfg['runs']['iterations'] = rng.randint(1, 5)
@@ -243,6 +252,8 @@ class Probe(object):
                 'invocations': run.invocations, 'warmup': run.warmup_iterations or 0,
                 'retries': run.retries_after_failure or 0, 'files': sorted(keyed[cmd]['files']), 'builds': b,
                 'profile': run.is_profiling(), 'iterations': run.iterations,
+                'rd_invocations': run.benchmark.run_details.invocations,
+                'rd_warmup': run.benchmark.run_details.warmup,
                 'variables': run.benchmark.variables.as_dict(),
             })
         self.by_cols = {}
